@@ -561,6 +561,7 @@ def _install_events():
         return r
 
     phase2._c03_ev = True
+    pivot._c03_wrapped = True          # (so that C03._install_trace does not wrap the tracing _pivot a second time)
     S._pivot, S._phase2, S._phase1 = pivot, phase2, phase1
 
 
